@@ -60,8 +60,12 @@ func (d *customizedFieldTextDecoder) Decode(req *protocol.Request, params param.
 	var defaultValue string
 	for _, tagInfo := range d.tagInfos {
 		if tagInfo.Skip || tagInfo.Key == jsonTag || tagInfo.Key == fileNameTag {
-			if tagInfo.Key == jsonTag && !tagInfo.Skip { // `json:"-"`: the body is no source for this field
+			if tagInfo.Key == jsonTag {
 				defaultValue = tagInfo.Default
+				if tagInfo.Skip {
+					// `json:"-"`: the body is no source for this field (its default is still its default)
+					continue
+				}
 				if len(tagInfo.Default) != 0 && keyExist(req, tagInfo) {
 					defaultValue = ""
 				}
